@@ -27,12 +27,14 @@ import os
 import shutil
 import tempfile
 
-RULE = ("PRNG histories of <= 10 ops (get/update/remove/mutate/save/savefail/load) over 4 devices (identifier pools "
-        "of size 3/2/1/2, one pool containing the empty string and a non-BMP identifier); configurations pick 1-4 "
+RULE = ("PRNG histories of <= 12 ops (get/update/remove/mutate/save/savefail/load) over 4 devices (identifier pools "
+        "of size 3/2/1/2: upper-case MAC, mixed-case UUID, 'MAC@name' with a blank, lower-case token, leading/trailing "
+        "blanks, a 420-character identifier, the empty string, a non-BMP identifier); configurations pick 1-4 "
         "protocols and identifiers of ONE device (any protocol slot, some None) — so two configurations overlap fully, "
         "partially or not at all — plus on-purpose bridging configurations (identifiers of two devices) and "
-        "configurations without identifier; values from {default, '', ASCII, non-BMP unicode, None}; on FileStorage and "
-        "MemoryStorage.  non-trivial = the history contains a lookup that hits an existing object through a different "
+        "configurations without identifier; values from {default, '', ASCII, mixed case, leading/trailing blanks, 700-900 characters, non-BMP unicode, None}; on FileStorage and "
+        "MemoryStorage; fixed histories incl. the empty-storage boundary (every device removed, saved, reloaded); after every "
+        "successful FileStorage.save() every stored identifier is looked up again in a FRESH storage after load().  non-trivial = the history contains a lookup that hits an existing object through a different "
         "configuration than the one that created it, or a save followed by a reload with >= 1 non-default device; "
         "distinct = (kind, history)")
 ASSUMPTIONS = [
@@ -55,7 +57,12 @@ PATHS = (["info." + f for f in ("name", "mac", "model", "device_id", "os_name", 
 UNDECLARED = {"protocols.companion.password", "protocols.dmap.password", "protocols.mrp.password"}
 ID_PATHS = ["protocols.%s.identifier" % p for p in ("airplay", "companion", "dmap", "mrp", "raop")]
 
-POOLS = [["a0", "a1", "a2"], ["b0", "b1"], ["c0"], ["", "\U0001F4FAid"]]
+# identifiers as real devices have them: upper-case MAC, mixed-case UUID, RAOP "MAC@name" with a
+# blank, a lower-case token, leading/trailing blanks, a very long one, the empty string, non-BMP
+A0, A1, A2 = "AA:BB:CC:DD:EE:FF", "4D797FD3-3538-427e-A47B-a32FC6CF3A69", "AABBCCDDEEFF@Living Room"
+B0, B1 = "b0", " B1 \t"
+C0 = "C0ffee-" * 60
+POOLS = [[A0, A1, A2], [B0, B1], [C0], ["", "\U0001F4FAid"]]
 
 
 # --------------------------------------------------------------------------- wire helpers
@@ -258,7 +265,7 @@ class Oracle:
             self.problem("changed:true-although-content-identical", full, False,
                          "changed is True although the content is identical to what was last saved/loaded")
 
-    def check_roundtrip(self, storage, fresh_objs, err):
+    def check_roundtrip(self, storage, fresh_objs, err, lookups=()):
         if err is not None:
             self.problem("roundtrip:load-raises", err, "loads", "the saved file does not load into a fresh FileStorage")
             return
@@ -266,6 +273,16 @@ class Oracle:
         if a != b:
             self.problem("roundtrip:content-differs", {"stored": a, "reloaded": b}, "identical",
                          "settings read back from a fresh storage differ from what was stored")
+        # the same configuration after the reload: a stored device is found again (no new
+        # object) and carries what was stored for it
+        for ident, want, got, created in lookups:
+            if created:
+                self.problem("roundtrip:lookup-after-reload-creates-new-object", {"identifier": ident, "stored": want}, "the reloaded device",
+                             "after save() and load() into a fresh storage a configuration with a stored identifier does not find its "
+                             "device: a blank object is created and the stored credentials are not applied")
+            elif got != want:
+                self.problem("roundtrip:lookup-after-reload-differs", {"identifier": ident, "stored": want, "reloaded": got}, "identical",
+                             "after save() and load() into a fresh storage a configuration gets settings that differ from those stored for it")
 
 
 # --------------------------------------------------------------------------- executing a history on the real code
@@ -297,13 +314,31 @@ def execute(kind, ops, loop):
                 ch = "raises:" + type(e).__name__
             return ch, [handles[id(o)] for o in storage.settings]
 
-        def fresh():
+        def fresh(probe=False):
             st = FileStorage(path, loop)
             try:
                 loop.run_until_complete(st.load())
             except Exception as e:
-                return None, type(e).__name__
-            return list(st.settings), None
+                return None, type(e).__name__, []
+            fo = list(st.settings)
+            lookups = []
+            if probe:
+                # one lookup per stored identifier, through the original and through the fresh storage
+                seen = set()
+                for o in list(storage.settings):
+                    for ident in ids_of(o):
+                        if ident in seen:
+                            continue
+                        seen.add(ident)
+                        cfgp = [["MRP", ident, None, None]]
+                        try:
+                            orig = loop.run_until_complete(storage.get_settings(make_conf(cfgp)))
+                            n = len(st.settings)
+                            re_ = loop.run_until_complete(st.get_settings(make_conf(cfgp)))
+                            lookups.append((ident, declared_content(orig), declared_content(re_), len(st.settings) != n))
+                        except Exception:
+                            pass
+            return fo, None, lookups
 
         for idx, op in enumerate(ops):
             kind_op = op[0]
@@ -347,8 +382,8 @@ def execute(kind, ops, loop):
                     oracle.mark(storage)
                     res = "ok"
                     if kind == "file":
-                        fo, err = fresh()
-                        oracle.check_roundtrip(storage, fo or [], err)
+                        fo, err, lookups = fresh(probe=True)
+                        oracle.check_roundtrip(storage, fo or [], err, lookups)
                         reloaded = "err:" + err if err else [content_of(o) for o in fo]
                 elif kind_op == "savefail":
                     with _FailOpen(root):
@@ -375,7 +410,7 @@ def execute(kind, ops, loop):
             problems += [(idx,) + p for p in oracle.problems]
         final = None
         if kind == "file":
-            fo, err = fresh()
+            fo, err, _l = fresh()
             final = "err:" + err if err else [content_of(o) for o in fo]
         return obs, problems, applies, final
     finally:
@@ -424,8 +459,8 @@ def impl_answers(kind, obs, final):
 
 # --------------------------------------------------------------------------- generators
 
-CREDS = [None, "", "abc", UNI, "0123456789abcdef:fedcba9876543210"]
-STRS = ["", "abc", UNI, "a b", "é\U0001F600" * 3]
+CREDS = [None, "", "abc", UNI, "0123456789abcdef:fedcba9876543210", " Lead", "Trail \n", "MiXeD:Case:AbCdEf", "Zz9" * 300]
+STRS = ["", "abc", UNI, "a b", "é\U0001F600" * 3, " Living Room ", "UPPER lower MiXeD", "N" * 700]
 MACS = ["02:70:79:61:74:76", "AA:BB:CC:DD:EE:FF"]
 
 
@@ -439,12 +474,12 @@ def gen_cfg(rng, mode=None):
         d1, d2 = rng.sample(range(len(POOLS)), 2)
         protos = rng.sample(PROTOS, max(2, n))
         pool = [rng.choice(POOLS[d1]), rng.choice(POOLS[d2])] + [rng.choice(POOLS[d1] + POOLS[d2]) for _ in protos[2:]]
-        return [[p, i, rng.choice(CREDS), rng.choice(CREDS[:4])] for p, i in zip(protos, pool)]
+        return [[p, i, rng.choice(CREDS), rng.choice(CREDS[:7])] for p, i in zip(protos, pool)]
     d = rng.randrange(len(POOLS))
     cfg = []
     for j, p in enumerate(protos):
         ident = rng.choice(POOLS[d]) if (j == 0 or rng.chance(0.8)) else None
-        cfg.append([p, ident, rng.choice(CREDS), rng.choice(CREDS[:4])])
+        cfg.append([p, ident, rng.choice(CREDS), rng.choice(CREDS[:7])])
     return cfg
 
 
@@ -461,7 +496,7 @@ def gen_value(rng, path):
     if leaf in ("timing_port", "control_port"):
         return rng.choice([0, 1, 7000, 65535])
     if leaf == "identifier":
-        return rng.choice([None, "a0", "b1", "zz", ""])
+        return rng.choice([None, A0, B1, "Zz", ""])
     return rng.choice(CREDS)
 
 
@@ -477,7 +512,11 @@ def gen_history(rng, kind, length):
             ops.append(["update", gen_cfg(rng)])
             nobj += 1
         elif r < 0.58:
-            ops.append(["remove", rng.randrange(max(1, nobj + 1))])
+            if rng.chance(0.3) and 0 < nobj <= 4:
+                # empty the storage: remove every object that may be live, then save
+                ops += [["remove", h] for h in range(nobj)] + [["save"]]
+            else:
+                ops.append(["remove", rng.randrange(max(1, nobj + 1))])
         elif r < 0.78:
             path = rng.choice(mpaths)
             if path.endswith("identifier") and rng.chance(0.7):
@@ -490,28 +529,32 @@ def gen_history(rng, kind, length):
         else:
             ops.append(["load"])
             nobj += 2
-    return ops
+    return ops[:12]
 
 
 def fixed_histories():
-    a = [["MRP", "a0", "mrpcred", None], ["AirPlay", "a1", "apcred", "pw"]]
+    a = [["MRP", A0, "mrpcred", None], ["AirPlay", A1, "apcred", "pw"]]
     return [
         # same device through a different protocol slot / subset of identifiers
-        [["get", a], ["get", [["Companion", "a1", None, None]]], ["get", [["RAOP", "a0", None, None], ["DMAP", "zz", None, None]]],
-         ["save"], ["get", [["DMAP", "b0", "x", None]]], ["save"], ["load"], ["get", [["AirPlay", "a0", None, None]]]],
+        [["get", a], ["get", [["Companion", A1, None, None]]], ["get", [["RAOP", A0, None, None], ["DMAP", "Zz", None, None]]],
+         ["save"], ["get", [["DMAP", B0, "x", None]]], ["save"], ["load"], ["get", [["AirPlay", A0, None, None]]]],
         # bridging configuration
-        [["get", [["MRP", "a0", "1", None]]], ["get", [["MRP", "b0", "2", None]]], ["get", [["MRP", "b0", None, None], ["AirPlay", "a0", None, None]]],
-         ["update", [["MRP", "b0", None, None], ["AirPlay", "a0", "3", None]]], ["get", [["DMAP", "b0", None, None]]]],
+        [["get", [["MRP", A0, "1", None]]], ["get", [["MRP", B0, "2", None]]], ["get", [["MRP", B0, None, None], ["AirPlay", A0, None, None]]],
+         ["update", [["MRP", B0, None, None], ["AirPlay", A0, "3", None]]], ["get", [["DMAP", B0, None, None]]]],
         # undeclared password extras, empty and unicode values, save / savefail / load
         [["update", [["Companion", "", UNI, "pw"], ["MRP", None, "", UNI]]], ["save"], ["mutate", 0, "info.name", UNI],
          ["savefail"], ["mutate", 0, "protocols.raop.timing_port", 7000], ["save"], ["load"], ["mutate", 1, "info.name", ""], ["save"]],
         # removal is by content
-        [["get", [["MRP", "c0", "k", None]]], ["save"], ["load"], ["remove", 0], ["get", [["MRP", "c0", None, None]]], ["save"]],
+        [["get", [["MRP", C0, "k", None]]], ["save"], ["load"], ["remove", 0], ["get", [["MRP", C0, None, None]]], ["save"]],
+        # boundary: the storage becomes empty again — the last devices are removed, saved, reloaded
+        [["get", [["MRP", C0, "k", None]]], ["save"], ["remove", 0], ["save"], ["load"], ["get", [["MRP", C0, None, None]]]],
+        [["update", a], ["update", [["RAOP", B1, "SECRET-B", "pw"]]], ["save"], ["remove", 0], ["save"], ["remove", 1], ["save"],
+         ["load"], ["get", [["RAOP", B1, None, None]]]],
         # no identifier
         [["get", [["MRP", None, "k", None]]], ["update", []], ["save"], ["load"]],
         # identifier overwritten with None by update; all-default device
-        [["get", [["MRP", "a0", None, None]]], ["mutate", 0, "protocols.mrp.identifier", None], ["save"], ["load"],
-         ["get", [["MRP", "a0", None, None]]], ["save"]],
+        [["get", [["MRP", A0, None, None]]], ["mutate", 0, "protocols.mrp.identifier", None], ["save"], ["load"],
+         ["get", [["MRP", A0, None, None]]], ["save"]],
     ]
 
 
